@@ -228,20 +228,28 @@ def analyse(facts, tier):
             return not l_[2] and strip(l_[1]).get('k') == 'MemberExpr' and short(strip(l_[1])['n']) == 'percussive'
         n_ = cmp_norm(l_) if l_[0] == 'cmp' else None
         return bool(n_) and strip(n_[1]).get('k') == 'MemberExpr' and short(strip(n_[1])['n']) == 'percussive' and ((n_[0] == '==' and n_[2] == 0) or (n_[0] == '<' and n_[2] == 1))
-    def lsb_refusal_melodic_only(f_):
-        # in the refusing disjunction, the alternative that tests lsb > 127 also says "not percussive"
-        if f_[0] != 'or':
-            return False
-        def flat_alts(f__):
-            for alt in f__[1]:
-                if len(alt) == 1 and alt[0][0] == 'or':
-                    yield from flat_alts(alt[0])
-                else:
-                    yield alt
-        hit = [alt for alt in flat_alts(f_) if any(l_[0] == 'cmp' and rng(l_, 'lsb', 127) for l_ in alt)]
-        return bool(hit) and all(any(not_perc(l_) for l_ in alt) for alt in hit)
-    refuses_all = any(rng(f_, 'lsb', 127) for f_ in gfs)
-    ok8 = (not loader_perc_lsb8) or (not refuses_all) or any(lsb_refusal_melodic_only(f_) for f_ in gfs)
+    def flat_alts(f__):
+        for alt in f__[1]:
+            if len(alt) == 1 and alt[0][0] == 'or':
+                yield from flat_alts(alt[0])
+            else:
+                yield alt
+    # every way of refusing an LSB above 127 - an alternative of a refusing disjunction, or a refusing return of its own - also says
+    # "not percussive"
+    refusals = []      # (literals that hold together with lsb > 127)
+    for b_, j_, st_ in gb.cfg.returns():
+        if const_of(st_['s'].get('e')) != -1:
+            continue
+        F = guard_facts(gb, b_, st_)
+        top = [f_ for f_ in F if f_[0] != 'or']
+        if any(f_[0] == 'cmp' and rng(f_, 'lsb', 127) for f_ in top):
+            refusals.append(top)
+        for f_ in F:
+            if f_[0] == 'or':
+                for alt in flat_alts(f_):
+                    if any(l_[0] == 'cmp' and rng(l_, 'lsb', 127) for l_ in alt):
+                        refusals.append(list(alt) + top)
+    ok8 = (not loader_perc_lsb8) or all(any(not_perc(l_) for l_ in r_) for r_ in refusals)
     obls.append(Obl('C12.R1', gb.name, 'every percussion set the loader creates can be named', gb.loc, 'discharged' if ok8 else 'finding',
                     why=('the LSB test applies to melodic banks only' if loader_perc_lsb8 else 'the loader masks the percussive LSB to 7 bits as well') if ok8 else
                     'LoadBank keeps all 8 bits of a percussive LSB (sets 128..255 are the XG SFX kits) but opn2_getBank refuses every LSB above 127: a loaded SFX kit is played by note-on and cannot be looked up, replaced or removed through the bank API'))
